@@ -689,6 +689,64 @@ func c28SetupClose(p c28Params, res *c28Result) {
 	res.Sig = fmt.Sprintf("setup-close/%s/cap%d/%v", p.Kind, p.Cap, serr == nil)
 }
 
+// c28MultiClose: Close is called from several goroutines at once (user goroutines, and the
+// client's own reader goroutine when the agent drops the connection). Exactly one of them shuts
+// the client down; a second close of an internal channel would be a panic (process death).
+func c28MultiClose(p c28Params, res *c28Result) {
+	a, err := c28NewAgent()
+	if err != nil {
+		c28Fail("listen: " + err.Error())
+	}
+	defer a.close()
+	cl, err := client.ClientFromConfig(&client.Config{Addr: a.addr, Timeout: c28Watchdog})
+	if err != nil {
+		c28Fail("connect: " + err.Error())
+	}
+	defer cl.Close()
+	s := c28NewSub(p.Kind, p.Cap)
+	c28Setup(a, cl, s)
+	var start atomic.Bool
+	var wg sync.WaitGroup
+	n := 2 + p.Stops
+	for g := 0; g < n; g++ {
+		spin := (p.Pre * (g + 1) * 37) % 400
+		wg.Add(1)
+		go func() {
+			defer wg.Done()
+			for !start.Load() {
+			}
+			for k := 0; k < spin; k++ {
+				_ = start.Load()
+			}
+			_ = cl.Close()
+		}()
+	}
+	if p.Pre%2 == 0 {
+		// the agent goes away at the same moment: the reader goroutine closes the client too
+		wg.Add(1)
+		go func() {
+			defer wg.Done()
+			for !start.Load() {
+			}
+			a.close()
+		}()
+	}
+	start.Store(true)
+	select {
+	case <-c28WaitWG(&wg):
+	case <-time.After(c28Watchdog):
+		c28Fail("concurrent Close calls did not return")
+	}
+	c28WaitQuiescent()
+	s.checkClosed(res, "after concurrent Close calls returned and the client went quiet")
+	if !cl.IsClosed() {
+		res.Viol = append(res.Viol, c28Viol{Key: "not-closed-after-close", Msg: "IsClosed() is false after Close returned"})
+	}
+	res.Cnt["concurrent_close_calls"] += n
+	res.NonTrivial = true
+	res.Sig = fmt.Sprintf("multi-close/%s/cap%d/n%d/agentdrop%v", p.Kind, p.Cap, n, p.Pre%2 == 0)
+}
+
 func c28Flood(p c28Params, res *c28Result) {
 	a, err := c28NewAgent()
 	if err != nil {
@@ -1003,8 +1061,10 @@ func c28GenParams(seed int64, kind string, i int) c28Params {
 		p.Class = "det-stop"
 	case x < 55 || (kind == "query" && x < 70):
 		p.Class = "det-close"
-	case x < 65 || (kind == "query" && x < 80):
+	case x < 65 || (kind == "query" && x < 78):
 		p.Class = "setup-close"
+	case x < 73 || (kind == "query" && x < 84):
+		p.Class = "multi-close"
 	default:
 		p.Class = "flood"
 	}
@@ -1022,6 +1082,10 @@ func c28GenParams(seed int64, kind string, i int) c28Params {
 		p.Cap = caps[rng.Intn(len(caps))]
 		p.Pre = rng.Intn(6)
 		p.Stops = rng.Intn(6)
+	case "multi-close":
+		p.Cap = caps[rng.Intn(len(caps))]
+		p.Pre = rng.Intn(12)
+		p.Stops = rng.Intn(4)
 	default:
 		n := 1 + rng.Intn(3)
 		p.Total = 20 + rng.Intn(120)
@@ -1101,6 +1165,8 @@ func c28Child(t *testing.T, specPath string) {
 				c28Det(p, res)
 			case "setup-close":
 				c28SetupClose(p, res)
+			case "multi-close":
+				c28MultiClose(p, res)
 			default:
 				c28Flood(p, res)
 			}
